@@ -140,6 +140,51 @@ pub fn check(case: &Case) -> Outcome {
             }
         }
     }
+    // a MemSource that has been read from before it is handed (by &mut) to the encoder: the stream covers what is left
+    {
+        use flacenc::source::{FrameBuf, MemSource, Source};
+        let pre = if b.inp.len == 0 { 0 } else { (b.inp.seed as usize % b.inp.len).min(block) };
+        for (multi, twice) in [(false, false), (true, false), (false, true)] {
+            let mut cfg = b.cfg.clone();
+            cfg.multithread = multi;
+            cfg.workers = if multi { Some(case.workers.max(1)) } else { None };
+            let Ok(vcfg) = enc::verified(&cfg) else { break };
+            let r = catch(|| -> Result<(flacenc::component::Stream, usize), String> {
+                let mut src = MemSource::from_samples(&samples, ch, bps, rate);
+                let mut consumed = 0;
+                if twice {
+                    // first encode reads the source to its end, the second one sees an exhausted source
+                    flacenc::encode_with_fixed_block_size(&vcfg, &mut src, block).map_err(|e| format!("{e:?}"))?;
+                    consumed = b.inp.len;
+                } else if pre > 0 {
+                    let mut fb = FrameBuf::with_size(ch, block).map_err(|e| format!("{e:?}"))?;
+                    consumed = src.read_samples(pre, &mut fb).map_err(|e| format!("{e:?}"))?;
+                }
+                let s = flacenc::encode_with_fixed_block_size(&vcfg, &mut src, block).map_err(|e| format!("{e:?}"))?;
+                Ok((s, consumed))
+            });
+            let (stream, consumed) = match r {
+                Ok(Ok(x)) => x,
+                _ => {
+                    out.class("skipped:partially-read-source-variant-failed(C01)");
+                    break;
+                }
+            };
+            let rest = &samples[consumed * ch..];
+            let want = md5::pcm_md5(rest, bps);
+            let si = stream.stream_info();
+            let name = format!("MemSource after {consumed} of {} samples were read ({}{})", b.inp.len, if multi { "multi" } else { "single" }, if twice { ", second encode of the same source" } else { "" });
+            out.class(if twice { "variant:exhausted-source-encoded-again" } else if consumed > 0 { "variant:partially-read-source" } else { "variant:fresh-source-by-mut-ref" });
+            if si.total_samples() != rest.len() / ch {
+                out.viol(format!("total-samples-wrong:partially-read-source:{}", if multi { "multi" } else { "single" }), format!("{name}: STREAMINFO total {} but {} inter-channel samples were consumed by this encode", si.total_samples(), rest.len() / ch));
+                return out;
+            }
+            if si.md5_digest() != &want {
+                out.viol("md5-wrong:partially-read-source", format!("{name}: MD5 {} but the samples consumed by this encode have {}", hex(si.md5_digest()), hex(&want)));
+                return out;
+            }
+        }
+    }
     let frames = (b.inp.len + block - 1) / block;
     let negative = samples.iter().any(|x| *x < 0);
     if b.inp.len == 0 {
@@ -160,7 +205,7 @@ pub fn case_strategy(io: InOpts) -> BoxedStrategy<Case> {
 
 pub fn run(ctx: &Ctx) {
     ctx.rule(
-        "cases = (config, input) encoded 8 ways: {single, multi(real threads, 1..=5 workers)} x {MemSource, integer fill, byte fill} + frame-level x {integer, byte}; both end-of-input behaviours of a source; the frame-level variant either copies the context's sample count or relies on the total accumulated by Stream::add_frame; family power-of-two-block-bytes: every (channels, width, block size) whose block is exactly 2^15..2^19 or 3*2^15..3*2^17 bytes, two blocks and a few samples, all 8 ways; \
+        "cases = (config, input) encoded 8 ways: {single, multi(real threads, 1..=5 workers)} x {MemSource, integer fill, byte fill} + frame-level x {integer, byte}; both end-of-input behaviours of a source; a MemSource handed over by &mut after part of it (or all of it, by a first encode) has been read: total and MD5 of what this encode consumed; the frame-level variant either copies the context's sample count or relies on the total accumulated by Stream::add_frame; family power-of-two-block-bytes: every (channels, width, block size) whose block is exactly 2^15..2^19 or 3*2^15..3*2^17 bytes, two blocks and a few samples, all 8 ways; \
          oracle: STREAMINFO parsed by the reference reader states the source's rate/channels/bps, total = inter-channel samples consumed, MD5 = harness' own RFC 1321 digest of its own LE serialisation; accessors agree; the 42 bytes are identical across the 8 variants; \
          non-trivial = (>= 2 frames and a negative sample) or bps != 16; scheduled interleavings of the hashing thread are explored in part 'sched' (see DESIGN 3.6)",
     );
